@@ -447,6 +447,24 @@ def _activate_full_plugin_worlds_for_body() -> Iterator[None]:
         yield
 
 
+@contextmanager
+def _conversion_trace_context() -> Iterator[None]:
+    """Keep conversion-time jit traces out of JAX's regular trace cache.
+
+    XLA metadata is part of JAX's trace context, so a ``jax.jit`` callable traced
+    while the plugin patches are active gets its own cache entry: the eager call
+    after the export is not served a jaxpr with converter-only primitives, and a
+    callable that was already traced before the export is re-traced with them.
+    """
+    try:
+        from jax.experimental.xla_metadata import set_xla_metadata
+    except ImportError:  # pragma: no cover - older JAX
+        yield
+        return
+    with set_xla_metadata(jax2onnx_conversion="1"):
+        yield
+
+
 def _qualname_of_target(target: Any) -> str:
     if inspect.isclass(target):
         return f"{target.__module__}.{target.__name__}"
@@ -1075,7 +1093,10 @@ class FunctionPlugin(PrimitivePlugin):
             active = set(_IN_FUNCTION_BUILD.get())
             _IN_FUNCTION_BUILD.set(active | {self.name})
             try:
-                with _activate_full_plugin_worlds_for_body():
+                with (
+                    _conversion_trace_context(),
+                    _activate_full_plugin_worlds_for_body(),
+                ):
                     closed = jax.make_jaxpr(_wrapped)(
                         *(tuple(sds) + tuple(dynamic_sds))
                     )
